@@ -43,7 +43,7 @@ from cryptography.hazmat.primitives.asymmetric.utils import (
     decode_dss_signature, encode_dss_signature)
 from hypothesis import strategies as st
 
-from ..core import CaseResult, Family, HarnessError, Violation, use_repo
+from ..core import CaseResult, Family, HarnessError, Violation, use_repo, pick
 
 use_repo()
 
@@ -660,11 +660,11 @@ def run_rawsig(case) -> CaseResult:
 def rawsig_strategy(tier: str):
     @st.composite
     def build(draw):
-        kt, alg = draw(st.sampled_from(
+        kt, alg = draw(pick(
             [(k, a) for k in KTS for a in sorted(KT[k]['sig'])]))
         msg = draw(st.one_of(st.binary(max_size=64),
                              st.binary(min_size=200, max_size=600),
-                             st.sampled_from([b'', b'\x00', b'\xff' * 32])))
+                             pick([b'', b'\x00', b'\xff' * 32])))
         return {'kt': kt, 'seed': draw(st.integers(0, NSEEDS - 1)),
                 'alg': alg, 'msg': msg,
                 'mask': [draw(st.integers(0, 254)), draw(st.integers(0, 254))],
@@ -1222,13 +1222,13 @@ def spec_strategy(api: bool, kts=None, ascii_only: bool = False,
 
     @st.composite
     def build(draw):
-        ca_kt = draw(st.sampled_from(kts))
-        sub_kt = draw(st.sampled_from(kts))
+        ca_kt = draw(pick(kts))
+        sub_kt = draw(pick(kts))
         seed = draw(st.integers(0, NSEEDS - 1))
-        ctype = draw(st.sampled_from([USER, USER, HOST, HOST] if api else
+        ctype = draw(pick([USER, USER, HOST, HOST] if api else
                                      [USER, USER, USER, HOST, HOST, 0, 3,
                                       2 ** 32 - 1]))
-        tm = st.one_of(st.sampled_from(TIMES), st.integers(0, MAXU64),
+        tm = st.one_of(pick(TIMES), st.integers(0, MAXU64),
                        st.integers(10 ** 9, 2 * 10 ** 9))
         va = draw(tm)
         vb = draw(st.one_of(tm, st.just(va), st.just(va + 1)
@@ -1244,7 +1244,7 @@ def spec_strategy(api: bool, kts=None, ascii_only: bool = False,
 
         pool = [p for p in PRINCIPALS if p.isascii() and ',' not in p] \
             if ascii_only else PRINCIPALS
-        principals = draw(st.lists(st.sampled_from(pool), max_size=4,
+        principals = draw(st.lists(pick(pool), max_size=4,
                                    unique=True))
         crit: List[Any] = []
         ext: List[Any] = []
@@ -1252,16 +1252,16 @@ def spec_strategy(api: bool, kts=None, ascii_only: bool = False,
         if ctype != HOST or not api:
             if draw(st.booleans()):
                 crit.append(['force-command', 'str',
-                             draw(st.sampled_from(['ls', 'echo hi', 'é']
+                             draw(pick(['ls', 'echo hi', 'é']
                                                   if not ascii_only else
                                                   ['ls', 'echo hi']))])
             if draw(st.booleans()):
-                crit.append(['source-address', 'str', draw(st.sampled_from(
+                crit.append(['source-address', 'str', draw(pick(
                     ['10.0.0.0/8', '127.0.0.1/32,::1/128',
                      '192.168.1.0/24']))])
 
             ext = [[n, 'flag', None] for n in draw(st.lists(
-                st.sampled_from(KNOWN_EXT), unique=True, max_size=6))]
+                pick(KNOWN_EXT), unique=True, max_size=6))]
 
         if ctype == HOST and api:
             crit, ext = [], []
@@ -1269,7 +1269,7 @@ def spec_strategy(api: bool, kts=None, ascii_only: bool = False,
         if not api:
             # things only the reference encoder can produce
             if draw(st.integers(0, 3)) == 0:
-                crit.append(draw(st.sampled_from([
+                crit.append(draw(pick([
                     ['verify-required', 'flag', None],
                     ['unknown@c16', 'str', 'x'],
                     ['unknown@c16', 'flag', None],
@@ -1278,7 +1278,7 @@ def spec_strategy(api: bool, kts=None, ascii_only: bool = False,
                     ['permit-pty', 'flag', None]])))
 
             if draw(st.integers(0, 2)) == 0:
-                ext.append(draw(st.sampled_from([
+                ext.append(draw(pick([
                     ['login@github.com', 'str', 'octocat'],
                     ['unknown@c16', 'flag', None],
                     ['unknown@c16', 'str', ''],
@@ -1299,7 +1299,7 @@ def spec_strategy(api: bool, kts=None, ascii_only: bool = False,
                        'abcXYZ019 _-@.é€\U0001f600', max_size=12)
 
         return {'ca': [ca_kt, seed], 'sub': [sub_kt, seed + 2],
-                'sigalg': draw(st.sampled_from(sorted(KT[ca_kt]['sig']))),
+                'sigalg': draw(pick(sorted(KT[ca_kt]['sig']))),
                 'calg': 0 if api else draw(st.integers(0, 2)),
                 'nonce': draw(st.binary(min_size=0 if not api else 32,
                                         max_size=32)),
@@ -1317,17 +1317,17 @@ def spec_strategy(api: bool, kts=None, ascii_only: bool = False,
 def cert_model_strategy(tier: str):
     @st.composite
     def build(draw):
-        builder = draw(st.sampled_from(['ref', 'ref', 'api']))
+        builder = draw(pick(['ref', 'ref', 'api']))
         spec = draw(spec_strategy(builder == 'api'))
         return {'builder': builder, 'spec': spec,
-                'form': draw(st.sampled_from(['openssh', 'openssh',
+                'form': draw(pick(['openssh', 'openssh',
                                               'rfc4716'])),
-                'comment': draw(st.sampled_from([b'', b'user@host',
+                'comment': draw(pick([b'', b'user@host',
                                                  b'two words'])),
-                'principals': draw(st.lists(st.sampled_from(PRINCIPALS),
+                'principals': draw(st.lists(pick(PRINCIPALS),
                                             max_size=2)),
                 'nows': draw(st.lists(st.one_of(
-                    st.sampled_from(TIMES), st.integers(0, MAXU64),
+                    pick(TIMES), st.integers(0, MAXU64),
                     st.floats(0, 4e9, allow_nan=False)), max_size=3))}
 
     return build()
@@ -1387,7 +1387,7 @@ def run_cert_edit(case) -> CaseResult:
 def cert_edit_strategy(tier: str):
     @st.composite
     def build(draw):
-        builder = draw(st.sampled_from(['ref', 'api']))
+        builder = draw(pick(['ref', 'api']))
         spec = draw(spec_strategy(True, valid_window=True))
         return {'builder': builder, 'spec': spec,
                 'mask': [draw(st.integers(0, 254)),
@@ -1846,9 +1846,9 @@ def run_sshsig_model(case) -> CaseResult:
 def sshsig_strategy_for(kts, names, ns_pool, ns_pats, pats, keygen=False):
     @st.composite
     def build(draw):
-        kt = draw(st.sampled_from(kts))
+        kt = draw(pick(kts))
         seed = draw(st.integers(0, NSEEDS - 1))
-        ns = draw(st.sampled_from(ns_pool))
+        ns = draw(pick(ns_pool))
         cert = None
         use_cert = draw(st.integers(0, 2)) == 0
 
@@ -1857,44 +1857,44 @@ def sshsig_strategy_for(kts, names, ns_pool, ns_pats, pats, keygen=False):
                                       valid_window=True))
             cert['sub'] = [kt, seed]
             cert['ca'] = [cert['ca'][0], seed + draw(st.integers(1, 2))]
-            cert['principals'] = draw(st.lists(st.sampled_from(names),
+            cert['principals'] = draw(st.lists(pick(names),
                                                max_size=3, unique=True))
             cert['va'], cert['vb'] = sorted(draw(st.lists(
-                st.sampled_from(SIG_EPOCHS + [0, MAXU64]), min_size=2,
+                pick(SIG_EPOCHS + [0, MAXU64]), min_size=2,
                 max_size=2, unique=True)))
 
             if keygen:
                 cert['type'] = USER
                 cert['crit'] = []
                 if cert['ca'][0] == 'rsa':
-                    cert['sigalg'] = draw(st.sampled_from(
+                    cert['sigalg'] = draw(pick(
                         ['rsa-sha2-256', 'rsa-sha2-512']))
                 if not cert['principals']:
-                    cert['principals'] = [draw(st.sampled_from(names))]
+                    cert['principals'] = [draw(pick(names))]
             elif cert['type'] == HOST:
                 cert['crit'], cert['ext'] = [], []
 
         def entry(draw):
-            keyname = draw(st.sampled_from(
+            keyname = draw(pick(
                 ['signer', 'signer', 'other', 'stranger', 'ca', 'ca'])
                 if not use_cert else
-                st.sampled_from(['other', 'stranger', 'ca', 'ca', 'ca']))
+                pick(['other', 'stranger', 'ca', 'ca', 'ca']))
             is_ca = draw(st.booleans()) if keyname == 'ca' or \
                 draw(st.integers(0, 4)) == 0 else False
             tsopt = st.one_of(st.none(), st.none(),
-                              st.sampled_from(SIG_EPOCHS))
-            return {'principals': draw(st.lists(st.sampled_from(pats),
+                              pick(SIG_EPOCHS))
+            return {'principals': draw(st.lists(pick(pats),
                                                 min_size=1, max_size=3)),
                     'ca': is_ca,
                     'namespaces': draw(st.one_of(
-                        st.none(), st.lists(st.sampled_from(ns_pats),
+                        st.none(), st.lists(pick(ns_pats),
                                             min_size=1, max_size=3))),
                     'va': draw(tsopt), 'vb': draw(tsopt), 'key': keyname,
                     # OpenSSH insists on quoted option values
                     'quote': True if keygen else draw(st.booleans()),
                     'order': draw(st.permutations(['ca', 'ns', 'va', 'vb'])),
-                    'comment': draw(st.sampled_from(['', 'c@h', 'a b'])),
-                    'sep': draw(st.sampled_from([' ', ' ', '\t', '  ']))}
+                    'comment': draw(pick(['', 'c@h', 'a b'])),
+                    'sep': draw(pick([' ', ' ', '\t', '  ']))}
 
         entries = draw(st.lists(st.composite(entry)(), min_size=1,
                                 max_size=4))
@@ -1904,7 +1904,7 @@ def sshsig_strategy_for(kts, names, ns_pool, ns_pats, pats, keygen=False):
             e = draw(st.composite(entry)())
             e['key'] = 'ca' if use_cert else 'signer'
             e['ca'] = use_cert
-            e['principals'] = draw(st.sampled_from(
+            e['principals'] = draw(pick(
                 [['*'], ['*@example.com', 'carol'], list(names[:3])]))
             if draw(st.booleans()):
                 e['namespaces'] = None
@@ -1912,13 +1912,13 @@ def sshsig_strategy_for(kts, names, ns_pool, ns_pats, pats, keygen=False):
 
         if not keygen and draw(st.integers(0, 3)) == 0:
             entries.insert(draw(st.integers(0, len(entries))), {
-                'junk': draw(st.sampled_from([
+                'junk': draw(pick([
                     '', '# a comment', '   ',
                     '* ssh-ed25519 AAAAC3NzaC1lZDI1NTE5AAAA',
                     '* namespaces="file" ssh-rsa AAAA',
                     '* not-a-key-type AAAA'])), 'ca': False, 'key': None})
 
-        queries = draw(st.lists(st.sampled_from(names), min_size=1,
+        queries = draw(st.lists(pick(names), min_size=1,
                                 max_size=3, unique=True))
         bounds = [e[k] for e in entries if e.get('junk') is None
                   for k in ('va', 'vb') if e[k] is not None]
@@ -1929,15 +1929,15 @@ def sshsig_strategy_for(kts, names, ns_pool, ns_pats, pats, keygen=False):
 
         cand = sorted({b + d for b in bounds for d in (-1, 0, 1)} |
                       {1650000000})
-        nows = draw(st.lists(st.sampled_from(cand), min_size=1, max_size=4,
+        nows = draw(st.lists(pick(cand), min_size=1, max_size=4,
                              unique=True))
 
         if not keygen and draw(st.booleans()):
             nows.append(nows[0] + 0.5)
 
-        return {'key': [kt, seed], 'other_kt': draw(st.sampled_from(kts)),
+        return {'key': [kt, seed], 'other_kt': draw(pick(kts)),
                 'cert': cert, 'namespace': ns,
-                'hash': draw(st.sampled_from(['sha256', 'sha512'])),
+                'hash': draw(pick(['sha256', 'sha512'])),
                 'msg': draw(st.one_of(st.binary(max_size=40),
                                       st.binary(min_size=100, max_size=300),
                                       st.just(b''))),
@@ -2135,7 +2135,7 @@ def keygen_sshsig_strategy(tier: str):
     @st.composite
     def build(draw):
         case = draw(base)
-        case['direction'] = draw(st.sampled_from(['a2k', 'k2a']))
+        case['direction'] = draw(pick(['a2k', 'k2a']))
         case['raw'] = False
         case['msg_pos'] = draw(st.lists(st.integers(0, 1000), min_size=1,
                                         max_size=2))
@@ -2351,34 +2351,34 @@ KG_TIMES = [1, 1000, 86400 * 11000, 1700000000, 1700000001, 2000000000,
 def keygen_cert_strategy(tier: str):
     @st.composite
     def build(draw):
-        direction = draw(st.sampled_from(['a2k', 'k2a']))
+        direction = draw(pick(['a2k', 'k2a']))
         spec = draw(spec_strategy(True, kts=KEYGEN_KTS, ascii_only=True,
                                   valid_window=True))
         names = ['alice', 'bob', 'root', 'host.example.com', 'al', 'Alice']
-        spec['principals'] = draw(st.lists(st.sampled_from(names),
+        spec['principals'] = draw(st.lists(pick(names),
                                            max_size=3, unique=True))
         spec['key_id'] = draw(st.text(alphabet='abcXYZ019_-@.', min_size=1,
                                       max_size=10))
-        tm = st.sampled_from(KG_TIMES)
+        tm = pick(KG_TIMES)
 
         if spec['ca'][0] == 'rsa':
-            spec['sigalg'] = draw(st.sampled_from(
+            spec['sigalg'] = draw(pick(
                 ['rsa-sha2-256', 'rsa-sha2-512', 'ssh-rsa']))
 
         if direction == 'a2k':
-            ends = draw(st.sampled_from(['both', 'both', 'forever', 'before',
+            ends = draw(pick(['both', 'both', 'forever', 'before',
                                          'after']))
         else:
             ends = 'both'
 
             if spec['type'] == USER:
                 if draw(st.integers(0, 2)) == 0:
-                    spec['crit'].append(draw(st.sampled_from([
+                    spec['crit'].append(draw(pick([
                         ['verify-required', 'flag', None],
                         ['unknown@c16', 'str', 'x'],
                         ['unknown@c16', 'flag', None]])))
                 if draw(st.integers(0, 1)) == 0:
-                    spec['ext'].append(draw(st.sampled_from([
+                    spec['ext'].append(draw(pick([
                         ['login@github.com', 'str', 'octocat'],
                         ['unknown@c16', 'flag', None],
                         ['zzz@c16', 'str', 'permit-pty']])))
